@@ -67,10 +67,6 @@ func run(c dnk.Case, k *ev.Case) *ev.Failure {
 	fail := func(clause, format string, a ...any) *ev.Failure {
 		return ev.Failf(clause, format, a...).WithHistory(summarize(h))
 	}
-	if h.CloseErr != nil {
-		k.Label("close-error")
-		return nil // the statement speaks about a Close that works; a failing Close on a healthy link is C08/C10 material
-	}
 	var acks []*sim.Entry
 	closeIdx := -1
 	for _, e := range h.Ledger {
@@ -86,6 +82,17 @@ func run(c dnk.Case, k *ev.Case) *ev.Failure {
 			}
 			closeIdx = e.Idx
 		}
+	}
+	if h.CloseErr != nil {
+		// the statement speaks about a Close that works (a failing Close on a healthy link is C08/C10 material) - except for the
+		// order on the wire, which holds however Close ends: nothing of the stream follows its close request
+		for _, e := range acks {
+			if closeIdx >= 0 && e.Idx > closeIdx {
+				return fail("C04.4 ack-after-close", "DownstreamChunkAck %d reached the broker after the DownstreamCloseRequest (Close returned %v)", e.Msg.(*message.DownstreamChunkAck).AckID, h.CloseErr)
+			}
+		}
+		k.Label("close-error")
+		return nil
 	}
 	if closeIdx < 0 {
 		return fail("C04.4 close", "Close returned nil but the broker saw no DownstreamCloseRequest")
@@ -206,6 +213,10 @@ var sub = ev.Sub[dnk.Case]{Name: "downstream-acks", Repeats: 30, Q: 150, T: 5000
 	c := dnk.Gen(t, 60, false)
 	// the application may read one downstream from several goroutines: acknowledgement and alias announcement stay exactly-once
 	c.Readers = rapid.SampledFrom([]int{1, 1, 2, 4}).Draw(t, "readers")
+	if rapid.IntRange(0, 4).Draw(t, "longflush") == 0 {
+		// nothing is acknowledged on a timer: everything rides on the flush that Close triggers, within Close's own deadline
+		c.AckFlushMs, c.CloseMode, c.CloseCtxMs = 60000, "immediate", 1500
+	}
 	if rapid.IntRange(0, 3).Draw(t, "datagram") == 0 {
 		c.Datagram = true
 		if c.QoS == 0 {
